@@ -8,4 +8,6 @@ git -C /repo worktree add --detach "$WT" HEAD >/dev/null 2>&1 || { echo "worktre
 cleanup() { git -C /repo worktree remove --force "$WT" >/dev/null 2>&1; rm -rf "$WT"; }
 trap cleanup EXIT
 (cd "$WT" && (git apply --3way "$D/patch.diff" 2>/dev/null || git apply "$D/patch.diff")) || { echo "patch does not apply"; exit 2; }
-cd /verif && VERIF_REPO="$WT" VERIF_EVIDENCE_DIR="$WT/.evidence" python3 tools/check.py "$P" --tier "$TIER" 2>&1 | grep -E "^(VIOLATION|KNOWN|INFRA|  )|exit" | cut -c1-300 | head -${SEED_LINES:-12}
+cd /verif && VERIF_REPO="$WT" VERIF_EVIDENCE_DIR="$WT/.evidence" python3 tools/check.py "$P" --tier "$TIER" > "$WT/.check.log" 2>&1
+grep -E "^(VIOLATION|KNOWN|INFRA|  )" "$WT/.check.log" | cut -c1-300 | head -${SEED_LINES:-12}
+grep -E "^$P [a-z]+: exit" "$WT/.check.log" | tail -1
